@@ -82,6 +82,15 @@ func subSend() mon.Sub {
 				if m.size == 70000 && c.Rng.Intn(3) != 0 {
 					m.size = 300
 				}
+				// one message in eight is cut into MANY frames (several hundred; now and then more than 2^16):
+				// whatever counts the fragments of a message must not run over
+				many := m.op != ref.OpPing && c.Rng.Intn(8) == 0
+				if many {
+					m.size = 3000 + c.Rng.Intn(3000)
+					if c.Rng.Intn(12) == 0 {
+						m.size = 66000 + c.Rng.Intn(500)
+					}
+				}
 				msgs = append(msgs, m)
 				p := make([]byte, m.size)
 				for j := range p {
@@ -126,9 +135,22 @@ func subSend() mon.Sub {
 					if c.Rng.Intn(2) == 0 && k > 50 {
 						k = 1 + c.Rng.Intn(50)
 					}
+					if many {
+						k = 1 + c.Rng.Intn(8)
+						if m.size > 60000 {
+							k = 1
+						}
+						if k > len(rest) {
+							k = len(rest)
+						}
+					}
 					chunk := rest[:k]
 					rest = rest[k:]
-					switch c.Rng.Intn(4) {
+					mode := c.Rng.Intn(4)
+					if many {
+						mode = 1 + c.Rng.Intn(2) // every chunk leaves as a frame of its own
+					}
+					switch mode {
 					case 1:
 						if w.Buffered() == 0 {
 							if _, err := w.WriteThrough(chunk); err != nil {
